@@ -20,34 +20,24 @@ func cpu() (time.Duration, time.Duration) {
 func TestProbe(t *testing.T) {
 	runtime.GOMAXPROCS(2)
 	c := rig.NewCheck(t, "C24", "exploration")
-	for _, d := range []inputDesc{{Idx: 3, Class: "text", Size: 150000}, {Idx: 5, Class: "text", Size: 300}} {
-		x := genInput(c, d)
-		for _, a := range algNames {
-			cd := compressor.New(algType(a))
-			u0, s0 := cpu()
-			z, _ := cd.Compress(x)
-			u1, s1 := cpu()
-			l := label(a, z)
-			ks := plan(c.RandFor("x"), z, l, 100)
-			u2, s2 := cpu()
-			var ms [][]byte
+	d := inputDesc{Idx: 5, Class: "text", Size: 2000}
+	x := genInput(c, d)
+	for _, a := range []string{"snappy", "gzip", "lz4", "zstd", "snappy"} {
+		cd := compressor.New(algType(a))
+		z, _ := cd.Compress(x)
+		l := label(a, z)
+		ks := plan(c.RandFor("x"), z, l, 200)
+		n := 0
+		u0, s0 := cpu()
+		t0 := time.Now()
+		for rep := 0; rep < 3; rep++ {
 			for _, k := range ks {
-				ms = append(ms, apply(z, k))
+				m := apply(z, k)
+				rawDecompress(cd, m)
+				n++
 			}
-			u3, s3 := cpu()
-			for _, m := range ms {
-				safeDecompress(cd, m)
-			}
-			u4, s4 := cpu()
-			for i, k := range ks {
-				c.Case("co/"+a+"/"+fmt.Sprint(d.Idx)+"/"+k.key(), true)
-				c.Seen("corruption_kinds", a+":"+k.Kind)
-				c.Seen("fields_hit", a+":"+region(l, k))
-				_ = i
-			}
-			u5, s5 := cpu()
-			fmt.Printf("%-6s size=%d len(z)=%d n=%d | compress u=%v s=%v | label+plan u=%v s=%v | apply u=%v s=%v | decompress/call u=%v s=%v | account u=%v s=%v\n", a, d.Size, len(z), len(ks),
-				u1-u0, s1-s0, u2-u1, s2-s1, u3-u2, s3-s2, (u4-u3)/time.Duration(len(ks)), (s4-s3)/time.Duration(len(ks)), u5-u4, s5-s4)
 		}
+		u1, s1 := cpu()
+		fmt.Printf("%-6s calls=%d wall/call=%v user/call=%v sys/call=%v rss=%dMiB gor=%d\n", a, n, time.Since(t0)/time.Duration(n), (u1-u0)/time.Duration(n), (s1-s0)/time.Duration(n), rssMiB(), runtime.NumGoroutine())
 	}
 }
